@@ -33,6 +33,7 @@ EXPECTED_REFUTATIONS = {
     # cfg -> the property TLC must refute (negative controls: the law has teeth)
     'G02_mirror.cfg': 'ResolveIsNearestAncestor',
     'G02_cache_naive.cfg': 'NoCacheStaleness',
+    'G02_acyclic.cfg': 'ResolutionIsAcyclic',    # the rule itself allows a value to resolve to a node containing its holder
 }
 
 
@@ -86,7 +87,7 @@ def run(chk):
   chk.notes['replay_hits'] = dict(sorted(hits.items()))
   for need in ('Set', 'Insert', 'Del', 'Clone', 'New', 'EnterOv', 'ExitOv', 'Read', 'attach', 'placeholder_reads',
                'read:err', 'read:node', 'read:value', 'read:iter', 'resolution_changed', 'resolution_changed:attach',
-               'resolution_changed:detach', 'resolution_changed:scope'):
+               'resolution_changed:detach', 'resolution_changed:scope', 'repr:ok', 'repr:cyclic'):
     chk.require(hits.get(need, 0) > 0, f'vacuous: no replayed step exercised {need}')
 
 
